@@ -519,6 +519,16 @@ type connectError struct {
 func (s *clientSocket) onConnectError(_ *parser.PacketHeader, decode parser.Decode) {
 	s.destroy()
 
+	// The server has refused the CONNECT packet, it is not pending anymore. Otherwise `Disconnect`
+	// sends a DISCONNECT packet for a namespace that was never joined (the server closes the whole
+	// connection for that, with all the other namespaces on it), and `Connect` doesn't send
+	// the CONNECT packet again.
+	s.stateMu.Lock()
+	if s.state == clientSocketConnStateConnectPending {
+		s.state = clientSocketConnStateDisconnected
+	}
+	s.stateMu.Unlock()
+
 	var v *connectError
 	vt := reflect.TypeOf(v)
 	values, err := decode(vt)
